@@ -529,7 +529,7 @@ def model_run(model, loop, toks, cache=None):
     return res
 
 
-def correspond(ctx, name, raw_lines, tbq, res, case, cache=None):
+def correspond(ctx, name, raw_lines, tbq, res, case, cache=None, strip_wrapper=False):
     """Model vs implementation for one front-end on one sequence.  Returns True when they agree."""
     rep, model = ctx.rep, ctx.model
     aligned, fed = model_fed(model, name, raw_lines)
@@ -539,6 +539,10 @@ def correspond(ctx, name, raw_lines, tbq, res, case, cache=None):
     toks = parse_outcomes([l for _, l in aligned], tbq)
     loop = 'queue' if name == 'NMEAQueue' else 'stream'
     per_fed, fin = model_run(model, loop, toks, cache)
+    cut = (lambda t: t.split('@')[0]) if strip_wrapper else (lambda t: t)     # C03 does not observe wrappers
+    per_fed = [[cut(t) for t in outs] for outs in per_fed]
+    if strip_wrapper and fin.startswith('Ok '):
+        fin = fin.split('W')[0]
     # the run stops at the first escaping exception: per_fed may be shorter than fed
     n = len(raw_lines)
     m_per = [[] for _ in range(n)]
@@ -546,19 +550,21 @@ def correspond(ctx, name, raw_lines, tbq, res, case, cache=None):
         m_per[k] = outs
     m_flat = [t for outs in per_fed for t in outs]
     m_exc = fin[6:] if fin.startswith('Raise ') else None
-    i_flat = [c[0] for c in res['flat']]
+    i_flat = [cut(c[0]) for c in res['flat']]
+    i_per = [[cut(c[0]) for c in x] for x in res['per']] if res['per'] is not None else None
+    i_state = None if res['state'] is None else (res['state'].split('W')[0] if strip_wrapper else res['state'])
     ok = True
     if m_flat != i_flat or m_exc != res['exc']:
         ok = False
-    elif res['per'] is not None and [[c[0] for c in x] for x in res['per']] != m_per:
+    elif i_per is not None and i_per != m_per:
         ok = False
-    elif name == 'NMEAQueue' and m_exc is None and res['state'] is not None and fin != 'Ok ' + res['state']:
+    elif name == 'NMEAQueue' and m_exc is None and i_state is not None and fin != 'Ok ' + i_state:
         ok = False
     if not ok:
         rep.disagree('H-stream/' + name, case,
                      {'deliveries': m_per if res['per'] is not None else m_flat, 'end': fin[:400]},
-                     {'deliveries': [[c[0] for c in x] for x in res['per']] if res['per'] is not None else i_flat,
-                      'end': res['exc'] or ('Ok ' + (res['state'] or '(state not observable)'))[:400]})
+                     {'deliveries': i_per if i_per is not None else i_flat,
+                      'end': res['exc'] or ('Ok ' + (i_state or '(state not observable)'))[:400]})
     return ok
 
 
@@ -696,7 +702,7 @@ def oracle_c18(model, seq, spec_per, res, name):
         if w != g:
             kind = 'lost' if g is None else ('stale-or-unexpected' if w is None else 'wrong-value')
             multi = c_is_multi(res['flat'][n][1])
-            bad.append(('wrapper_msg', kind, f'{name}: delivery {n} ({"assembled multi-part" if multi else "single"} message) '
+            bad.append(('wrapper_msg', kind, f'{name}: delivery {n} ({"assembled (buffered)" if multi else "single"} message, {res["flat"][n][1]["cnt"]} fragment(s)) '
                                              f'carries wrapper {g}, the latest wrapper since the previous delivery is {w}',
                         'assembled' if multi else 'single'))
             break
@@ -704,7 +710,8 @@ def oracle_c18(model, seq, spec_per, res, name):
 
 
 def c_is_multi(a):
-    return a['cnt'] > 1
+    """went through the fragment buffer (everything but a 1/1 message without sequence id)"""
+    return not (a['cnt'] == 1 and a['seq'] in (None, 0))
 
 
 C07_KEYS = ('raw', 'payload', 'bits', 'valid', 'wrapper', 'tag')
@@ -787,7 +794,8 @@ def run_case(ctx, seq, label, term=b'', tbq=False, frontends=None, cache=None, t
         results[name] = res
         rep.case((name, tbq, term, tuple(case['lines'])), kind='frontend:' + name)
         if ctx.model is not None:
-            correspond(ctx, name, raw_lines, tbq, res, dict(case, frontend=name), cache)
+            correspond(ctx, name, raw_lines, tbq, res, dict(case, frontend=name), cache,
+                       strip_wrapper=(tuple(want) == ('C03',)))
         if not scoped or ctx.model is None:
             continue
         replay = {'seq': seq, 'term': term.hex(), 'tbq': tbq, 'frontend': name}
@@ -834,12 +842,16 @@ def generated_cases(ctx, n_random, n_out):
     return cases
 
 
-def run_generated(ctx, want, n_random, n_out, frontends=None):
+def run_generated(ctx, want, n_random, n_out, frontends=None, deadline=None):
+    import time
     rep = ctx.rep
     tmpdir = tempfile.mkdtemp(prefix='verif_stream_')
     cache = {}
     try:
         for n, (label, seq, term, tbq) in enumerate(generated_cases(ctx, n_random, n_out)):
+            if deadline and time.time() > deadline:
+                rep.notes.append(f'generated cases stopped at the time limit after {n} sequences')
+                break
             res = run_case(ctx, seq, label, term=term, tbq=tbq, cache=cache, tmpdir=tmpdir, want=want, frontends=frontends)
             rep.count('label:' + label.split(':')[0])
             for k, v in describe(seq).items():
@@ -865,9 +877,12 @@ def enumerate_orders(msgs):
     return itertools.permutations(allf)
 
 
-def small_scope(ctx, want, shapes, frontends, with_wrappers=True, limit=None):
+def small_scope(ctx, want, shapes, frontends, with_wrappers=True, limit=None, deadline=None):
     """shapes: list of tuples of fragment counts, e.g. (3, 2, 1).  Messages occupy distinct slots (the interleavings of
-    messages that share a slot are not well-formed); a slot-reuse variant runs them back to back."""
+    messages that share a slot are not well-formed).  All arrival orders of a shape are run; when there are more than
+    `limit`, that many PRNG-drawn orders instead (then the space is not recorded as exhausted)."""
+    import math
+    import time
     rng, rep = ctx.rng, ctx.rep
     cache = {}
     tmpdir = tempfile.mkdtemp(prefix='verif_stream_')
@@ -880,19 +895,37 @@ def small_scope(ctx, want, shapes, frontends, with_wrappers=True, limit=None):
                 seq, chan = (None, 'A') if n == 1 else slots[i % len(slots)]
                 msgs.append(make_message(rng, i, n, seq, chan, bad_checksums=0.1))
             w = wrapper_line(rng)
-            for order in enumerate_orders(msgs):
+            w0 = wrapper_line(rng)
+            allf = [f for m in msgs for f in m]
+            n_orders = math.factorial(len(allf))
+            if limit and n_orders > limit:
+                def orders():
+                    for _ in range(limit):
+                        o = allf[:]
+                        rng.shuffle(o)
+                        yield o
+                full = False
+            else:
+                orders = lambda: enumerate_orders(msgs)   # noqa: E731
+                full = True
+            for order in orders():
+                if deadline and time.time() > deadline:
+                    rep.notes.append(f'small-scope enumeration stopped at the time limit in shape {shape}')
+                    return total
                 seq_ = list(order)
                 if with_wrappers:
-                    # a wrapper in front of the last line and one at the start: the last delivery must carry the latest
-                    seq_ = [wrapper_line(rng)] + seq_[:-1] + [w] + seq_[-1:]
+                    # a wrapper at the start and one directly in front of the last line: the last delivery carries the latest
+                    seq_ = [w0] + seq_[:-1] + [w] + seq_[-1:]
                 run_case(ctx, seq_, f'enum:{shape}', term=b'\n', tbq=False, frontends=frontends, cache=cache,
                          tmpdir=tmpdir, want=want, scoped=True)
                 total += 1
                 if len(cache) > 20000:
                     cache.clear()
-                if limit and total >= limit:
-                    return total
-            rep.exhaustive.append(f'all arrival orders of messages with fragment counts {shape} through {"/".join(frontends)}')
+            if full:
+                rep.exhaustive.append(f'all {n_orders} arrival orders of messages with fragment counts {shape} through '
+                                      + '/'.join(frontends))
+            else:
+                rep.count(f'sampled-orders:{shape}', limit)
     finally:
         shutil.rmtree(tmpdir, ignore_errors=True)
     return total
